@@ -166,6 +166,11 @@ impl<K, V> ValueEntry<K, V> {
         &self.info
     }
 
+    /// Returns `true` if this entry shares the given `EntryInfo` (same allocation).
+    pub(crate) fn has_entry_info(&self, info: &EntryInfo<K>) -> bool {
+        std::ptr::eq(&*self.info, info)
+    }
+
     pub(crate) fn is_admitted(&self) -> bool {
         self.info.is_admitted()
     }
